@@ -515,7 +515,7 @@ class Frame:
             self._data[off + 1],
             self._data[off + 2],
             self._data[off + 3],
-        ] = data
+        ] = array('B', data)  # Validate all four channels first, so a bad value can't leave a half-written pixel.
 
     def __buffer__(self, flags: int) -> memoryview:
         """Allow access to the internal buffer of pixels."""
